@@ -20,24 +20,28 @@ SRC = os.path.join(ROOT, "src", "controls.c")
 _P = None
 
 
+SRC_SIMD = os.path.join(ROOT, "src", "controls_simd.c")
+UNITS = [(SRC, ["-std=gnu11"], "controls.json"), (SRC_SIMD, ["-std=gnu11", "-mavx2"], "controls_simd.json")]
+
+
 def program():
     global _P
     if _P is not None:
         return _P
     extract.ensure_plugin()
     h = hashlib.sha256()
-    for f in (SRC, extract.PLUGIN):
+    for f in [u[0] for u in UNITS] + [extract.PLUGIN]:
         h.update(open(f, "rb").read())
     cdir = os.path.join(extract.CACHE, "ctl-" + h.hexdigest()[:20])
     if not os.path.exists(os.path.join(cdir, "DONE")):
         os.makedirs(extract.CACHE, exist_ok=True)
         tmpd = tempfile.mkdtemp(prefix="ctl-", dir=extract.CACHE)
-        out = os.path.join(tmpd, "controls.json")
-        ok, err = extract.extract_file(SRC, ["-std=gnu11"], ROOT, out)
-        if not ok:
-            shutil.rmtree(tmpd, ignore_errors=True)
-            raise extract.AnalysisBroken("cannot extract the control file: " + err)
-        json.dump({"repo": ROOT, "units": [{"file": SRC, "flags": ["-std=gnu11"], "facts": "controls.json"}]},
+        for src_, flags, name in UNITS:
+            ok, err = extract.extract_file(src_, flags, ROOT, os.path.join(tmpd, name))
+            if not ok:
+                shutil.rmtree(tmpd, ignore_errors=True)
+                raise extract.AnalysisBroken("cannot extract the control file %s: %s" % (os.path.basename(src_), err))
+        json.dump({"repo": ROOT, "units": [{"file": s_, "flags": fl, "facts": nm} for s_, fl, nm in UNITS]},
                   open(os.path.join(tmpd, "meta.json"), "w"))
         open(os.path.join(tmpd, "DONE"), "w").write("ok\n")
         try:
@@ -181,7 +185,47 @@ def endian(ctx):
     ctx.control("R20.endian silent on assemble_good", not en.sites([P.fn("assemble_good")]))
 
 
-ALL = {"endian": endian, "units": units, "alloc": alloc, "status": status, "ownership": ownership, "cursor": cursor, "arrays": arrays,
+def progress(ctx):
+    from .rules import progress as pg
+    c = _sub()
+    pg.check(c, "src/controls.c", "ctl_rle_t")
+    _expect(ctx, "R21.progress", c, ["ctl_refill_bad"], ["ctl_refill_good"])
+
+
+def lazyinit(ctx):
+    from .rules import lazyinit as lz
+    c = _sub()
+    n, inst = lz.check(c, ["src/controls.c"])
+    ctx.control("R22.lazy-init finds the control table", len(inst) == 1, str(inst))
+    _expect(ctx, "R22.lazy-init", c, ["lazy_bad"], ["lazy_good"])
+
+
+def lanes(ctx):
+    from .rules import lanes as ln
+    P = program()
+    c = _sub()
+    ln.check(c, [P.fn("lanes_bad"), P.fn("lanes_good")])
+    _expect(ctx, "R23.lanes", c, ["lanes_bad"], ["lanes_good"])
+
+
+def atomic(ctx):
+    from .rules import allocfail
+    P = program()
+    c = _sub()
+    allocfail.check_atomic(c, [P.fn("grow_atomic_bad"), P.fn("grow_atomic_good")])
+    _expect(ctx, "R1.atomic", c, ["grow_atomic_bad"], ["grow_atomic_good"])
+
+
+def feasible(ctx):
+    from .rules import results
+    P = program()
+    c = _sub()
+    fns = [P.fn("alloc_infeasible_good")]
+    results.check_allocations(c, fns, "R1.alloc", summaries=results.param_deref_summaries(P, fns))
+    _expect(ctx, "R1.alloc (feasible paths)", c, [], ["alloc_infeasible_good"])
+
+
+ALL = {"progress": progress, "lazyinit": lazyinit, "lanes": lanes, "atomic": atomic, "feasible": feasible, "endian": endian, "units": units, "alloc": alloc, "status": status, "ownership": ownership, "cursor": cursor, "arrays": arrays,
        "recursion": recursion, "narrowing": narrowing, "skeleton": skeleton, "must_pass": must_pass}
 
 
